@@ -241,3 +241,31 @@ func init() {
 			Old: "\t\tcase 'n':\n\t\t\tva.SetZero()\n\t\t\treturn nil\n\t\tcase '[':", New: "\t\tcase 'n':\n\t\t\tif !uo.Flags.Get(jsonflags.FormatNilSliceAsNull) || true {\n\t\t\t\tva.SetZero()\n\t\t\t}\n\t\t\treturn nil\n\t\tcase '[':", Rule: "OPT-6"},
 	)
 }
+
+func init() {
+	addMutants(
+		// ---- C17/C02: USER, PREC, ERR
+		Mutant{ID: "user2-marshaltofunc-keeps-within-flag", Props: []string{"C17"}, File: "arshal_funcs.go", Func: "MarshalToFunc",
+			Old: "\t\t\txe.Flags.Set(jsonflags.WithinArshalCall | 0)\n", New: "", Rule: "USER-2"},
+		Mutant{ID: "user2-unsupported-fallthrough-ignores-length", Props: []string{"C17"}, File: "arshal_methods.go", Func: "makeMethodArshaler",
+			Old: "\t\t\t\t\tif prevDepth == currDepth && prevLength == currLength {\n\t\t\t\t\t\treturn prevMarshal(enc, va, mo)", New: "\t\t\t\t\tif prevDepth == currDepth {\n\t\t\t\t\t\treturn prevMarshal(enc, va, mo)", Rule: "USER-2"},
+		Mutant{ID: "user2-singular-check-weakened", Props: []string{"C17", "C02"}, File: "arshal_methods.go", Func: "makeMethodArshaler",
+			Old: "if (prevDepth != currDepth || prevLength+1 != currLength) && err == nil {\n\t\t\t\terr = errNonSingularValue\n\t\t\t}\n\t\t\tif err != nil {\n\t\t\t\tif errors.Is(err, errors.ErrUnsupported) {\n\t\t\t\t\tif prevDepth == currDepth && prevLength == currLength {\n\t\t\t\t\t\treturn prevMarshal",
+			New: "if (prevDepth != currDepth || prevLength == currLength) && err == nil {\n\t\t\t\terr = errNonSingularValue\n\t\t\t}\n\t\t\tif err != nil {\n\t\t\t\tif errors.Is(err, errors.ErrUnsupported) {\n\t\t\t\t\tif prevDepth == currDepth && prevLength == currLength {\n\t\t\t\t\t\treturn prevMarshal", Rule: "USER-2"},
+		Mutant{ID: "prec1-methods-on-pointer-kinds", Props: []string{"C17"}, File: "arshal_methods.go", Func: "makeMethodArshaler",
+			Old: "if t.Kind() == reflect.Pointer || t.Kind() == reflect.Interface {", New: "if t.Kind() == reflect.Interface {", Rule: "PREC-1"},
+		Mutant{ID: "prec1-lookup-never-stops", Props: []string{"C17"}, File: "arshal_funcs.go", Func: "typedArshalers.lookup",
+			Old: "\t\tif !fncVal.maySkip {\n\t\t\tbreak // subsequent arshalers will never be called\n\t\t}\n", New: "", Rule: "PREC-1"},
+		Mutant{ID: "prec1-slice-ignores-caller-marshalers", Props: []string{"C17"}, File: "arshal_default.go", Func: "makeSliceArshaler",
+			Old: "\t\tmarshal := valFncs.marshal\n\t\tif mo.Marshalers != nil {\n\t\t\tmarshal, _ = mo.Marshalers.(*Marshalers).lookup(marshal, t.Elem())\n\t\t}\n", New: "\t\tmarshal := valFncs.marshal\n", Rule: "PREC-1"},
+		Mutant{ID: "prec1-time-before-methods", Props: []string{"C17"}, File: "arshal.go", Func: "lookupArshaler",
+			Old: "\tfncs = makeMethodArshaler(fncs, t)\n\tfncs = makeTimeArshaler(fncs, t)\n", New: "\tfncs = makeTimeArshaler(fncs, t)\n\tfncs = makeMethodArshaler(fncs, t)\n", Rule: "PREC-1"},
+		Mutant{ID: "user1-marshaljson-bypasses-writevalue", Props: []string{"C17", "C02"}, File: "arshal_methods.go", Func: "makeMethodArshaler",
+			Old: "\t\t\tif err := enc.WriteValue(val); err != nil {\n\t\t\t\tif mo.Flags.Get(jsonflags.ReportErrorsWithLegacySemantics) {\n\t\t\t\t\treturn internal.NewMarshalerError(va.Addr().Interface(), err, \"MarshalJSON\")",
+			New: "\t\t\tif len(val) > 64 {\n\t\t\t\txe := export.Encoder(enc)\n\t\t\t\txe.Buf = append(xe.Tokens.MayAppendDelim(xe.Buf, '0'), val...)\n\t\t\t\txe.Tokens.Last.Increment()\n\t\t\t\treturn nil\n\t\t\t}\n\t\t\tif err := enc.WriteValue(val); err != nil {\n\t\t\t\tif mo.Flags.Get(jsonflags.ReportErrorsWithLegacySemantics) {\n\t\t\t\t\treturn internal.NewMarshalerError(va.Addr().Interface(), err, \"MarshalJSON\")", Rule: "USER-1"},
+		Mutant{ID: "err1-map-drops-endobject-error", Props: []string{"C17", "C02"}, File: "arshal_default.go", Func: "makeMapArshaler",
+			Old: "\t\tif err := enc.WriteToken(jsontext.EndObject); err != nil {\n\t\t\treturn err\n\t\t}\n\t\treturn nil", New: "\t\tenc.WriteToken(jsontext.EndObject)\n\t\treturn nil", Rule: "ERR-1"},
+		Mutant{ID: "err1-any-drops-key-error", Props: []string{"C02"}, File: "arshal_any.go", Func: "marshalObjectAny",
+			Old: "\t\t\tif err := enc.WriteToken(jsontext.String(name)); err != nil {\n\t\t\t\treturn err\n\t\t\t}\n\t\t\tif err := marshalValueAny(enc, val, mo); err != nil {", New: "\t\t\t_ = enc.WriteToken(jsontext.String(name))\n\t\t\tif err := marshalValueAny(enc, val, mo); err != nil {", Rule: "ERR-1"},
+	)
+}
